@@ -65,7 +65,7 @@ class Unwind(BaseException):
 class Seam:
     def __init__(self, root, mode="record", fault_at=None, kill_at=None,
                  sched=None, detect_opaque=False, write_buffer=None,
-                 kill_at_mut=None):
+                 kill_at_mut=None, write_chunks=None):
         self.root = os.path.abspath(root)
         self.mode = mode
         self.fault_at = fault_at
@@ -75,6 +75,7 @@ class Seam:
         self.sched = sched
         self.detect_opaque = detect_opaque
         self.write_buffer = write_buffer
+        self.write_chunks = write_chunks
         self.log = []  # mutation log
         self.trace = []  # every traced op (kind, relpath, mutating)
         self.n = 0
@@ -204,12 +205,20 @@ class TracedFileIO(io.FileIO):
         seam.op("open", path, thunk, mut and (trunc or creates),
                 mode=mode, existed=existed, trunc=trunc)
         self._xv_append = "a" in mode
+        self._xv_chunk = None
 
     def write(self, b):
         seam = self._xv_seam
         if seam is not ACTIVE:
             return super().write(b)
         data = bytes(b)
+        if seam.write_chunks and seam.write_chunks > 1:
+            # legal raw-I/O behaviour: a short write; the buffered layer
+            # retries with the remainder, so a result is published in pieces
+            if self._xv_chunk is None:
+                self._xv_chunk = max(1, -(-len(data) // seam.write_chunks))
+            data = data[: self._xv_chunk]
+            b = data
         if self._xv_append:
             off = os.fstat(self.fileno()).st_size
         else:
